@@ -20,8 +20,8 @@ def canon_id(row):
 
 def cross_compare(ctx, info, rng, fam, hs):
     """direct comparison memory vs sqlite on the histories of this run"""
-    from lib import queuecheck as Q
-    outs = Q.run_impl(ctx, info["hbin"], hs, backends=("memory", "sqlite"))
+    hs = [h for h, _ in fam.kept_outs]
+    outs = [o for _, o in fam.kept_outs]
     compared = 0
     full = 0
     diverged_on_choice = 0
